@@ -74,7 +74,8 @@ pub fn drive(file: &[u8], options: &Options, cuts: &[usize], d: &DriveOpts, sink
     };
     let s2 = sink.clone();
     let r = sut::observed(obs, || {
-        let mut s = Stream::new_with_options(options, s2);
+        // Stream::new must be Stream::new_with_options(default): alternate
+        let mut s = if crate::sut::is_default_options(options) && file.len() % 2 == 0 { Stream::new(s2) } else { Stream::new_with_options(options, s2) };
         let mut start = 0usize;
         let mut err: Option<String> = None;
         'pieces: for (pi, &end) in bounds.iter().enumerate() {
